@@ -162,3 +162,48 @@ def scoping_programs(seed, n):
             calls.append({'src': r.choice(['h(1)', X, 'w(1)', 'r']), 'n': 0, 'max': 50})
         out.append({'names': [names], 'host': host, 'calls': calls})
     return out
+
+
+# ---- C12 / C13 / C14: containers --------------------------------------------------------------
+def nested_value(r, depth=2):
+    c = r.randrange(9)
+    if depth <= 0 or c < 3:
+        return r.choice([1, 2, Decimal('1.5'), 'a', True, None, Decimal(7)])
+    if c < 6:
+        return [nested_value(r, depth - 1) for _ in range(r.randrange(0, 3))]
+    if c < 8:
+        return {r.choice(['a', 'b', '1']): nested_value(r, depth - 1) for _ in range(r.randrange(0, 3))}
+    return (r.choice([1, 'a']), nested_value(r, depth - 1))
+
+
+def alias_programs(seed, n):
+    """Stores of every form followed by mutations through either side; host objects with shared
+    substructure and tuples; values that travelled through items()/enumerate()/+/push."""
+    r = random.Random(seed)
+    out = []
+    for i in range(n):
+        inner = nested_value(r, 1) if r.random() < 0.5 else [1]
+        h = r.choice([[inner, inner], [inner, nested_value(r, 1)], {'a': inner, 'b': nested_value(r, 1)}, nested_value(r, 2), [[1], [2]], [(1, [2]), (2, [3])]])
+        names = {'h': h}
+        if r.random() < 0.3:
+            names['h2'] = h
+        if r.random() < 0.3:
+            names['g'] = inner
+        vars_ = ['x', 'y', 'c', 'd']
+        roots = ['h', 'x', 'y', 'c[0]', 'd["k"]', 'x[0]', 'h[0]', 'y[1]', 'h["a"]', 'x[0][1]', 'c', 'd', 'h2', 'g']
+        lines = [r.choice(['x = h', 'x = h[0]', 'x = [h, h]', 'c = [0, 0]\nc[0] = h', 'd = {}\nd["k"] = h', 'x = []\nx += h',
+                           'c = [[]]\nc[0] += h', 'x = enumerate(h)', 'x = items(h)', 'x = h\ny = x', 'x = h + h', 'x = []\npush(x, h)',
+                           'x = values(h)', 'x = reversed(h)', 'x = sorted(h)', 'y = [g, g]\nx = y', 'x = h[0:1]', 'x = {"k": h}', 'x = h if True else 0',
+                           'x = [h] | map(v => v)', 'x = h or 1'])]
+        for _ in range(r.randrange(1, 5)):
+            R = r.choice(roots)
+            lines.append(r.choice(['push(%s, 9)' % R, 'push(%s[0], 9)' % R, '%s[0] = 7' % R, 'del %s[0]' % R, '%s["a"] = 7' % R, 'pop(%s)' % R,
+                                   '%s[0] += [9]' % R, 'insert(%s, 0, 8)' % R, 'remove(%s, 1)' % R, '%s += [5]' % R if '[' not in R else 'push(%s, 5)' % R,
+                                   'y = %s' % R, 'c = [%s]' % R, 'd = {"k": %s}' % R, '%s["a"] += [1]' % R, 'push(%s, h)' % R,
+                                   'x = %s' % R, '%s[0][1].push(3)' % R if False else 'push(%s[0][1], 3)' % R]))
+        lines.append(r.choice(['[x, h]', 'x', 'h', 'len(h)', '[h, c]']))
+        calls = [{'src': '\n'.join(lines), 'n': 0, 'max': 400}]
+        if r.random() < 0.3:
+            calls.append({'src': '\n'.join(['push(%s, 4)' % r.choice(roots), 'y = x', 'push(y, 1)', '[x, y, h]']), 'n': 0, 'max': 200})
+        out.append({'names': [names], 'host': {}, 'calls': calls})
+    return out
